@@ -57,7 +57,8 @@ impl<'a> DwarfUnitParser<'a> {
             lines = parse_lines(&mut rows)?;
             files = parse_files(self.dwarf, &unit, &rows)?;
         }
-        lines.sort_unstable_by_key(|x| x.address);
+        // stable: rows with equal addresses keep the order of the line program
+        lines.sort_by_key(|x| x.address);
 
         let mut ranges = self
             .dwarf
